@@ -507,3 +507,70 @@ def returned_comparisons(body, ch, pred):
                 op = {"Lt": "Ge", "Le": "Gt", "Gt": "Le", "Ge": "Lt"}[op]
             out.append((bb, op))
     return out
+
+
+def edges_not_taken_when(prog, body, ch, adt_suffix, field, variant, depth=0):
+    """CFG edges of `body` that cannot be taken when `<x>.field` (an enum of type adt_suffix) is `variant`:
+    switchInt on its discriminant, PartialEq::eq/ne against a promoted constant, `matches!`, and bool workspace helpers
+    of `x` whose result is determined by the variant (evaluated recursively, one level)."""
+    from .expr import Chaser, has_field
+    adt = None
+    for p, a in prog.adts.items():
+        if p.endswith(adt_suffix):
+            adt = a
+    if adt is None:
+        return set()
+    discr_of = {v["name"]: v["discr"] for v in adt["variants"]}
+    want = discr_of.get(variant)
+    dead = set()
+
+    def is_field(e):
+        return has_field(e, None, field)
+    for bb, blk in enumerate(body.blocks):
+        t = blk["t"]
+        if t["k"] != "switch":
+            continue
+        e0 = ch.origin(t["discr"])
+        e, neg = unwrap_not(e0)
+        succs = [tgt for _, tgt in t["targets"]] + [t["otherwise"]]
+        if e[0] == "discr" and is_field(e[1]):
+            listed = {v: tgt for v, tgt in t["targets"]}
+            taken = listed.get(want, t["otherwise"])
+            dead |= {(bb, s) for s in succs if s != taken}
+            continue
+        val = None          # truth value of the (un-negated) expression for this variant, if determined
+        if e[0] == "call" and e[1] in ("std::cmp::PartialEq::eq", "std::cmp::PartialEq::ne") and len(e[2]) == 2:
+            a, b = e[2]
+            other = promoted_value(prog, body, b) if is_field(a) else promoted_value(prog, body, a) if is_field(b) else None
+            if other is not None:
+                val = (other == variant) == e[1].endswith("::eq")
+        elif e[0] == "call" and depth < 2 and e[1].startswith(("saito_", "<saito_")):
+            hb = prog.bodies.get(e[1])
+            if hb is not None and hb.ty(0)["s"] == "bool" and not hb.is_coroutine:
+                hch = Chaser(hb)
+                hd = edges_not_taken_when(prog, hb, hch, adt_suffix, field, variant, depth + 1)
+                can_t = _reaches_return(hb, True, hd)
+                can_f = _reaches_return(hb, False, hd)
+                if can_t != can_f:
+                    val = can_t
+                else:
+                    # the helper's result may be the comparison itself: `self.transaction_type == TransactionType::Issuance`
+                    vals = set()
+                    for d in hb.defs(0):
+                        x = hch.rvalue(d[3], 0) if d[0] == "stmt" else hch.call(d[2], d[1], 0) if d[0] == "call" else None
+                        x, xneg = unwrap_not(x) if x is not None else (None, False)
+                        if x is not None and x[0] == "call" and x[1] in ("std::cmp::PartialEq::eq", "std::cmp::PartialEq::ne") and len(x[2]) == 2:
+                            a, b = x[2]
+                            other = promoted_value(prog, hb, b) if is_field(a) else promoted_value(prog, hb, a) if is_field(b) else None
+                            if other is not None:
+                                vals.add(((other == variant) == x[1].endswith("::eq")) != xneg)
+                                continue
+                        vals.add(None)
+                    if len(vals) == 1 and None not in vals:
+                        val = vals.pop()
+        if val is None:
+            continue
+        truth = (not val) if neg else val
+        T, F = _bool_targets(t)
+        dead |= {(bb, s) for s in (F if truth else T)}
+    return dead
